@@ -9,7 +9,8 @@ from geomdl import NURBS, BSpline, compatibility
 RULE = ("pairs (a, b) of curves / surfaces / volumes, rational and non-rational, precision in {default 18, 3, 6, 9}: b differs from a in "
         "exactly one component (a control point coordinate, a weight, a knot, a degree, a size, the parametric kind, the rationality) by "
         "0, tol/2, 2*tol or a large amount, or in none; plus comparisons with non-geometry objects and deep copies; both a == b, b == a, "
-        "a != b, b != a, a == a and a == deepcopy(a) are evaluated; non-trivial = both shapes were built; distinct by case hash")
+        "a != b, b != a, a == a and a == deepcopy(a) are evaluated; half of the shapes carry metadata (small non-zero id given as keyword or by the setter, coinciding "
+        "with a degree / size / the parametric dimension, name, opt entries), the copy must keep definition and metadata; non-trivial = both shapes were built; distinct by case hash")
 ASSUMPTIONS = ["__eq__ is checked as repaired by fixes/C19-eq-tolerance.diff and fixes/C19-eq-ctrlpts-result.diff: the comparison tolerance is 10 ** -precision",
                "both operands have the same precision (symmetry is only claimed then)",
                "float subtraction of the compared components is exact for the generated data (Sterbenz), so the exact model takes the same branch"]
@@ -47,10 +48,23 @@ def rand_shape(rng, kind, rational):
     return {"kind": kind, "rational": rational, "degs": degs, "kvs": kvs, "sizes": sizes, "cp": pts}
 
 
-def build(sh, precision=None, normalize=True, rational=None):
+def apply_meta(o, meta):
+    """object metadata that is not part of the definition: id, name, opt"""
+    if not meta:
+        return
+    if meta.get("via") == "setter":
+        o.id = meta["id"]
+    o.name = meta["name"]
+    for k, v in meta["opt"]:
+        o.opt = [k, v]
+
+
+def build(sh, precision=None, normalize=True, rational=None, meta=None):
     rational = sh["rational"] if rational is None else rational
     mod = NURBS if rational else BSpline
     kw = {}
+    if meta and meta.get("via") == "kwarg":
+        kw["id"] = meta["id"]
     if precision is not None:
         kw["precision"] = precision
     if not normalize:
@@ -71,6 +85,7 @@ def build(sh, precision=None, normalize=True, rational=None):
         o.degree_u, o.degree_v, o.degree_w = sh["degs"]
         o.set_ctrlpts(copy.deepcopy(sh["cp"]), *sh["sizes"])
         o.knotvector_u, o.knotvector_v, o.knotvector_w = [list(k) for k in sh["kvs"]]
+    apply_meta(o, meta)
     return o
 
 
@@ -109,7 +124,13 @@ class Eq(Family):
             if comp == "rational":
                 rational = True
             sh = rand_shape(rng, kind, rational)
-            c = {"shape": sh, "comp": comp, "precision": None, "how": "zero", "normalize": True}
+            c = {"shape": sh, "comp": comp, "precision": None, "how": "zero", "normalize": True, "meta": None, "meta_b": None}
+            if (i // 3) % 2 == 1 or comp == "none":
+                # small non-zero ids that coincide with a degree, a size or the parametric dimension (CPython shares small ints)
+                cand = [len(sh["degs"]), sh["degs"][0], sh["sizes"][0], sh["degs"][-1], sh["sizes"][-1]] + [rng.randint(1, 6)]
+                c["meta"] = {"id": int(rng.choice(cand)), "via": rng.choice(["kwarg", "setter"]), "name": rng.choice(["crv", "part-7", ""]),
+                             "opt": [["face_id", rng.randint(1, 6)], ["tag", "x"]][:rng.randint(0, 2)]}
+                c["meta_b"] = {"id": int(rng.randint(1, 6)), "via": "setter", "name": "other", "opt": []}
             if comp in ("coord", "weight", "knot"):
                 c["how"] = rng.choice(["zero", "half", "double", "double", "big" if comp != "knot" else "mid"])
                 if c["how"] in ("half", "double"):
@@ -147,7 +168,7 @@ class Eq(Family):
     def impl(self, c):
         def run():
             sh = c["shape"]
-            a = build(sh, c["precision"], c["normalize"])
+            a = build(sh, c["precision"], c["normalize"], meta=c.get("meta"))
             comp = c["comp"]
             tol = self._tol(c)
             if comp == "nonshape":
@@ -164,7 +185,7 @@ class Eq(Family):
                     sh2["cp"][c["pt"]][c["co"]] = sh["cp"][c["pt"]][c["co"]] + d
                 elif comp == "knot":
                     sh2["kvs"][c["dir"]][c["idx"]] = sh["kvs"][c["dir"]][c["idx"]] + d
-                b = build(sh2, c["precision"], c["normalize"])
+                b = build(sh2, c["precision"], c["normalize"], meta=c.get("meta_b"))
                 if comp == "degree":
                     if sh["kind"] == "curve":
                         b.degree = sh["degs"][0] + 1
@@ -175,7 +196,8 @@ class Eq(Family):
                     sz[c["dir"]] += 1
                     b.cpsize = sz
             cp = copy.deepcopy(a)
-            return {"eq_ab": a == b, "eq_ba": b == a, "ne_ab": a != b, "ne_ba": b != a, "eq_aa": a == a, "ne_aa": a != a,
+            meta_ok = (cp.id == a.id and cp.name == a.name and cp.opt == a.opt and cp.pdimension == a.pdimension and cp.rational == a.rational)
+            return {"meta_ok": meta_ok, "eq_ab": a == b, "eq_ba": b == a, "ne_ab": a != b, "ne_ba": b != a, "eq_aa": a == a, "ne_aa": a != a,
                     "eq_copy": a == cp, "eq_copy_rev": cp == a, "ne_copy": a != cp,
                     "def_a": defn(a), "def_b": defn(b), "def_copy": defn(cp)}
         return call(quiet, run)
@@ -233,7 +255,12 @@ class Eq(Family):
                 return "nonshape: comparison with %r gives ==:%r !=:%r" % (c["value"], o["nonshape"][0], o["nonshape"][1])
             return None
         if o["eq_copy"] is not True or o["eq_copy_rev"] is not True or o["ne_copy"] is not False:
-            return "deepcopy: a == deepcopy(a) is %r (reverse %r, != %r)" % (o["eq_copy"], o["eq_copy_rev"], o["ne_copy"])
+            return "deepcopy: a == deepcopy(a) is %r (reverse %r, != %r); metadata %s" % (o["eq_copy"], o["eq_copy_rev"], o["ne_copy"], c.get("meta"))
+        if o["def_copy"] != o["def_a"]:
+            diff = [k for k in o["def_a"] if o["def_a"][k] != o["def_copy"][k]]
+            return "deepcopy: the copy's definition differs from the source in %s (metadata %s)" % (diff, c.get("meta"))
+        if not o["meta_ok"]:
+            return "deepcopy: id / name / opt / kind of the copy differ from the source (metadata %s)" % (c.get("meta"),)
         if o["eq_ab"] != o["eq_ba"]:
             return "symmetric: a == b is %r but b == a is %r" % (o["eq_ab"], o["eq_ba"])
         if o["ne_ab"] != (not o["eq_ab"]) or o["ne_ba"] != (not o["eq_ba"]):
@@ -252,7 +279,7 @@ class Eq(Family):
         return "ok" in out
 
     def stratum(self, c, out):
-        return "%s/%s/%s/%s" % (c["shape"]["kind"], "rat" if c["shape"]["rational"] else "nonrat", c["comp"], c["how"])
+        return "%s/%s/%s/%s%s" % (c["shape"]["kind"], "rat" if c["shape"]["rational"] else "nonrat", c["comp"], c["how"], "/meta" if c.get("meta") else "")
 
 
 def families():
